@@ -182,9 +182,9 @@ CmRead(D, name, a) ==
     [] name = "getlist_int" -> RInts(Conv(CmGetList(D, k)))
     [] name = "get"         -> IF f = 0 THEN RNone ELSE IF MdVals(D[f], k) = <<>> THEN KeyErr ELSE RVal(MdVals(D[f], k)[1])
     [] name = "get_default" -> IF f = 0 THEN RVal(a.v) ELSE IF MdVals(D[f], k) = <<>> THEN KeyErr ELSE RVal(MdVals(D[f], k)[1])
-    [] name = "get_int"     ->      \* the first dict whose first value converts
-         LET g == FirstIdx(D, LAMBDA d : MdVals(d, k) # <<>> /\ IsDigits(MdVals(d, k)[1])) IN
-         IF g = 0 THEN RNone ELSE RInt(DecVal(MdVals(D[g], k)[1]))
+    [] name = "get_int"     ->      \* the first dict that has the key and whose first value converts
+         LET g == FirstIdx(D, LAMBDA d : MdHas(d, k) /\ (MdVals(d, k) = <<>> \/ IsDigits(MdVals(d, k)[1]))) IN
+         IF g = 0 THEN RNone ELSE IF MdVals(D[g], k) = <<>> THEN KeyErr ELSE RInt(DecVal(MdVals(D[g], k)[1]))
     [] name = "getitem"     -> IF f = 0 \/ MdVals(D[f], k) = <<>> THEN KeyErr ELSE RVal(MdVals(D[f], k)[1])
     [] name = "contains"    -> RBool(f # 0)
     [] OTHER -> RExc("?unknown-read")
